@@ -88,7 +88,7 @@ func (b *c13Builder) define(name string, toks []string) {
 func checkC13(c *Ctx) {
 	n := 400
 	if !c.Quick() {
-		n = 8000
+		n = 60000
 	}
 	r := NewRand(c.Seed*5381 + 13)
 	var recs []map[string]interface{}
